@@ -275,7 +275,28 @@ func runC19(c *sim.Ctx) {
 			defer db.Close()
 			ctx, cancel := context.WithCancel(context.Background())
 			defer cancel()
-			rows, err := db.QueryContext(ctx, query)
+			// one query in four runs inside a database/sql transaction (a no-op for this
+			// read-only driver: same rows, and Commit/Rollback after Close must work)
+			var tx *sql.Tx
+			if s.Chance(1, 4, "in-transaction") {
+				if t, err := db.BeginTx(ctx, nil); err == nil {
+					tx = t
+					defer func() {
+						if s.Chance(1, 2, "commit") {
+							tx.Commit()
+						} else {
+							tx.Rollback()
+						}
+					}()
+					c.Probe("query-in-transaction")
+				}
+			}
+			var rows *sql.Rows
+			if tx != nil {
+				rows, err = tx.QueryContext(ctx, query)
+			} else {
+				rows, err = db.QueryContext(ctx, query)
+			}
 			if err != nil {
 				if variant {
 					c.Inc("syntax_variant_rejected", 1)
